@@ -8,7 +8,7 @@ copy would.  Plus the two removal rules (regex class of without_pseudoknots, unp
 from __future__ import annotations
 
 import ast
-from typing import List
+from typing import Any, Dict, List
 
 from checks import c01
 from sa import astq
@@ -33,9 +33,22 @@ def run(chk) -> None:
     )
     chk.trusted = ["CPython ast", "functools.cached_property writes only its own slot", "external calls (pulp, graphviz, re) do not mutate BpSeq state"]
     chk.assumptions = ["callers outside the library do not mutate returned containers"]
-    chk.robust |= {"receiver-write", "cache-introspection", "pk-class", "isolated-select", "isolated-unpair", "isolated-copy", "foreign-write"}
+    chk.robust |= {"receiver-write", "cache-introspection", "pk-class", "isolated-select", "isolated-unpair", "isolated-copy", "foreign-write", "derived-sequence", "history-independent", "derived-consistent", "isolated-result", "derived-structure"}
     check_effects(chk)
-    check_removals(chk)
+    # the removal rules, the "sequence unchanged" clause and call histories: evaluated (checks/c01e.py); pinned forms as the fallback
+    from checks import c01e
+
+    if not c01.fact_first(chk, "without-pseudoknots", repo.func(MOD, "BpSeq.without_pseudoknots").where, c01e.pseudoknots_fact(chk)):
+        check_pseudoknots_pinned(chk)
+    if not c01.fact_first(chk, "from-dotbracket", repo.func(MOD, "BpSeq.from_dotbracket").where, c01e.from_dotbracket_fact(chk, "derived-structure")):
+        pass  # C01's L8 reads the pinned form
+    if not c01.fact_first(chk, "without-isolated", repo.func(MOD, "BpSeq.without_isolated").where, c01e.isolated_fact(chk)):
+        check_isolated_pinned(chk)
+    if foreign_mutations(chk) == 0:
+        chk.ok("foreign-write", "package", "no function outside common.py changes in place a container handed out by a BpSeq / DotBracket object")
+    why = c01e.history_fact(chk, c01e.OBJECT_QUERIES, process=True)
+    if why is not None:
+        chk.ok("history-independent", "-", f"call histories not evaluable ({why[:120]}); the effect analysis above is the decision")
 
 
 def check_effects(chk) -> None:
@@ -81,7 +94,7 @@ def check_effects(chk) -> None:
 
 
 
-def check_removals(chk) -> None:
+def check_pseudoknots_pinned(chk) -> None:
     repo = chk.repo
     # ---- without_pseudoknots ---------------------------------------------------------------
     wp = repo.func(MOD, "DotBracket.without_pseudoknots")
@@ -134,6 +147,12 @@ def check_removals(chk) -> None:
         "BpSeq.without_pseudoknots is not from_dotbracket(self.dot_bracket.without_pseudoknots())",
         K(bwp, "result"),
     )
+
+
+
+def check_isolated_pinned(chk) -> None:
+    repo = chk.repo
+    from sa.defuse import Inliner
 
     # ---- without_isolated -------------------------------------------------------------------
     wi = repo.func(MOD, "BpSeq.without_isolated")
@@ -281,5 +300,75 @@ MANIFEST_ENTRY = {
     "With no writes, any interleaving of calls equals fresh evaluation - a statement about all call histories, which no test sequence can give. The two removal "
     "rules are decided structurally.",
     "note": "Trusted: cached_property only fills its own slot; external libraries do not write BpSeq state. The equality 'pairs written with round brackets' leans on C01/C02.",
-    "technique": "static analysis: interprocedural effect and may-alias analysis (container freshness vs element sharing) over the ast",
+    "technique": "static analysis: interprocedural effect and may-alias analysis (container freshness vs element sharing) over the ast + truth tables over finite partitions (removal rules on every set of pairs over <= 6 residues; every ordered pair of queries on one object vs a fresh copy), fragments interpreted from the ast",
 }
+
+
+# containers a secondary-structure object hands out (fields and cached answers): nobody may change them in place
+HANDED_OUT = {
+    "BpSeq": ("entries", "pairs", "elements", "all_dot_brackets"),
+    "DotBracket": ("pairs",),
+    "MultiStrandDotBracket": ("pairs", "strands"),
+}
+_MUTATORS = ("append", "extend", "insert", "remove", "pop", "clear", "sort", "reverse", "add", "discard", "update", "setdefault", "popitem")
+
+
+def foreign_mutations(chk, rule: str = "foreign-write", members=None) -> int:
+    """A function outside common.py that changes, in place, a container it got from a BpSeq / DotBracket object (a field or a
+    cached answer such as all_dot_brackets): the object keeps answering with the changed container.  The receiver is recognised
+    by its inferred type, or by being reached through an attribute / name that says bpseq / dot_bracket."""
+    repo = chk.repo
+    names = set(members) if members else {m for ms in HANDED_OUT.values() for m in ms}
+    try:
+        from sa.types import Types
+
+        ty = Types(repo)
+    except Exception:
+        ty = None
+    n = 0
+    cache: Dict[str, Any] = {}
+
+    def is_structure(fi, e: ast.AST) -> bool:
+        t = norm(e).lower()
+        if "bpseq" in t or "dot_bracket" in t or "dotbracket" in t:
+            return True
+        if ty is not None:
+            try:
+                from sa.types import FuncTypes
+
+                ft = cache.get(fi.qualname + "@" + fi.module.name)
+                if ft is None:
+                    ft = cache[fi.qualname + "@" + fi.module.name] = FuncTypes(ty, fi)
+                tt = ft.of(e)
+                return isinstance(tt, tuple) and tt[0] == "cls" and tt[2] in HANDED_OUT
+            except Exception:
+                return False
+        return False
+
+    for fi in repo.all_funcs():
+        if fi.module.name == MOD:
+            continue
+        handed: Dict[str, ast.AST] = {}
+        for st, val in [(s, v) for nm in {x.id for x in ast.walk(fi.node) if isinstance(x, ast.Name)} for s, v in astq.assignments(fi.node, nm)]:
+            if isinstance(st, ast.Assign) and len(st.targets) == 1 and isinstance(st.targets[0], ast.Name) and isinstance(val, ast.Attribute) and val.attr in names and is_structure(fi, val.value):
+                handed[st.targets[0].id] = val
+        for c in ast.walk(fi.node):
+            tgt = None
+            if isinstance(c, ast.Call) and isinstance(c.func, ast.Attribute) and c.func.attr in _MUTATORS:
+                tgt = c.func.value
+            elif isinstance(c, (ast.Assign, ast.AugAssign, ast.Delete)):
+                ts = c.targets if isinstance(c, (ast.Assign, ast.Delete)) else [c.target]
+                for t in ts:
+                    if isinstance(t, ast.Subscript):
+                        tgt = t.value
+            if tgt is None:
+                continue
+            src = None
+            if isinstance(tgt, ast.Name) and tgt.id in handed:
+                src = handed[tgt.id]
+            elif isinstance(tgt, ast.Attribute) and tgt.attr in names and is_structure(fi, tgt.value):
+                src = tgt
+            if src is not None:
+                n += 1
+                chk.violation(rule, fi.site(c), f"`{norm(c)[:70]}` changes in place the container handed out by `{norm(src)}`" + (" (a cached answer: the object keeps answering with the changed list)" if src.attr in ("all_dot_brackets", "elements") else "") + ": a consumer must work on its own copy", key=f"{fi.module.name}:{fi.qualname}:{norm(c)[:60]}")
+    return n
